@@ -72,7 +72,7 @@ class H(dict):
             flags=[], solver="default", timeout=600, mem_gb=12, tiers=("quick", "thorough"),
             expect="pass", covers=None, isr=None, ignore=[], depth=None, finding=None,
             excludes=[], weight=1, recursion_is_violation=False, cflags=[], what="",
-            pre=None, no_cover=False, replay_cflags=[], drop_flags=[], replay_mode='native', cover_timeout=None, bounds={}, nobody_ok=[],
+            pre=None, no_cover=False, replay_cflags=[], drop_flags=[], replay_mode='native', est_gb=3, cover_timeout=None, bounds={}, nobody_ok=[],
         )
         d.update(kw)
         super().__init__(d)
@@ -195,6 +195,12 @@ def trace_summary(trace, maxn=400):
     return out
 
 
+import threading
+MEM_BUDGET_GB = int(os.environ.get("VERIF_MEM_GB", "44"))
+MEM_COND = threading.Condition()
+MEM_USED = [0]
+
+
 class Runner:
     def __init__(self, prop, tier, work, keep=False):
         self.prop, self.tier, self.work, self.keep = prop, tier, work, keep
@@ -244,6 +250,20 @@ class Runner:
 
     # ---- one harness ---------------------------------------------------------------
     def run_harness(self, h):
+        # memory-aware admission: the sum of the estimated peaks of running harnesses stays below the budget
+        need = min(h.est_gb, MEM_BUDGET_GB)
+        with MEM_COND:
+            while MEM_USED[0] + need > MEM_BUDGET_GB and MEM_USED[0] > 0:
+                MEM_COND.wait()
+            MEM_USED[0] += need
+        try:
+            return self._run_harness(h)
+        finally:
+            with MEM_COND:
+                MEM_USED[0] -= need
+                MEM_COND.notify_all()
+
+    def _run_harness(self, h):
         r = dict(name=h.name, what=h.what, solver=h.solver, unwind=h.unwind, unwindset=h.unwindset,
                  bounds=h.bounds, expect=h.expect, status="?", failed=[], properties=0,
                  covers=[], wall_s=0.0, solver_cmd="", rss_mb=0, notes=[])
